@@ -35,6 +35,7 @@ type frame struct {
 	panic            interface{}
 	phitemps         []Value
 	callpos          token.Pos
+	returned         bool // the function has returned (its map iterators are dead)
 }
 
 // targetPanic is a panic of the interpreted program.
@@ -451,6 +452,7 @@ func (w *Worker) callSSA(caller *frame, callpos token.Pos, fn *ssa.Function, arg
 	for fr.block != nil {
 		fr.runFrame()
 	}
+	fr.returned = true
 	return fr.result
 }
 
